@@ -1685,9 +1685,13 @@ class Interp:
                     return
                 if isinstance(rng, Agg) and all(isinstance(x, Int) for x in rng.items):
                     if ty.startswith('std::ops::RangeTo<') and len(rng.items) == 1:
+                        if rng.items[0].v > len(base.items):
+                            raise Diverged(where)       # slice end out of range: the indexing panics
                         fr.storev(dest, Agg(base.items[:rng.items[0].v]))
                         return
                     if ty.startswith('std::ops::RangeFrom<') and len(rng.items) == 1:
+                        if rng.items[0].v > len(base.items):
+                            raise Diverged(where)
                         fr.storev(dest, Agg(base.items[rng.items[0].v:]))
                         return
             fr.storev(dest, TOP)
